@@ -335,8 +335,8 @@ def run(ctx):
                 ctx.check(bool(edges) and cc.dominated_by_edges(c.block, edges), 'R02.4', 'connector:after:%s' % tgt,
                           '%s is reachable only after x224::Client::connect(..)? succeeded (TLS established)' % tgt.rsplit('::', 2)[-2:],
                           c.where(), 'Connector::connect can reach %s without a successful security negotiation' % tgt)
-    ctx.floor('R02.4', 'credential-bearing calls in Connector::connect (mcs connect, sec::connect x2)',
-              len(cc.calls_to('core::sec::connect')) + len(cc.calls_to('core::mcs::Client::<S>::connect')), 3)
+    ctx.floor('R02.4', 'credential-bearing calls in Connector::connect (mcs connect and at least one sec::connect)',
+              min(len(cc.calls_to('core::sec::connect')), 1) + min(len(cc.calls_to('core::mcs::Client::<S>::connect')), 1), 2)
 
 
 def object_of(st, e):
